@@ -50,8 +50,8 @@ GEN_PRESETS = ["mixed", "mono", "mono-disc", "kron3", "mixing", "mono-mixing", "
 
 
 def plan(tier, seed):
-    n_gen = 7 if tier == "quick" else 1200
-    n_pipe = 10 if tier == "quick" else 1440
+    n_gen = 14 if tier == "quick" else 1200
+    n_pipe = 20 if tier == "quick" else 1440
     cases = []
     for name in GEN_PRESETS:
         _, _, semirings = next(p for p in c01.PRESETS if p[0] == name)
@@ -61,7 +61,7 @@ def plan(tier, seed):
         for k in range(n_pipe):
             cases.append({"kind": "pipe", "pipe": kind, "k": k, "seed": seed})
     for d in DIRECTED:
-        for k in range(2 if tier == "quick" else 144):
+        for k in range(4 if tier == "quick" else 144):
             cases.append({"kind": "directed", "name": d, "k": k, "seed": seed})
     return cases
 
